@@ -126,13 +126,39 @@ theorem collect_eq_ok_iff (s : Stream ε ρ) (rows : List ρ) : collect s = .ok 
 
 end
 
+theorem fixupMerge_unlimited_site {χ ρ ν ε κ α : Type} (S : Sem χ ρ ν ε κ α) (site site' : Site)
+    (nulls : List String) (filtered : List ρ) (os : List ρ) : ∀ (i n : Nat),
+    fixupMerge S LimEnv.unlimited site nulls filtered i n os =
+      fixupMerge S LimEnv.unlimited site' nulls filtered i n os := by
+  induction os with
+  | nil => intro i n; rfl
+  | cons o os ih =>
+    intro i n
+    show (fixupMerge S LimEnv.unlimited site nulls filtered (i + 1) _ os).map _ =
+      (fixupMerge S LimEnv.unlimited site' nulls filtered (i + 1) _ os).map _
+    rw [ih]
+
 /-- without limits, the stream of a node does not depend on where the node sits -/
 theorem runL_unlimited_site {χ ρ ν ε κ α : Type} [DecidableEq κ] (S : Sem χ ρ ν ε κ α) (Q : Quirks)
     (p : Plan χ ρ ε α) : ∀ (site site' : Site) (env : ρ),
     runL S Q LimEnv.unlimited site env p = runL S Q LimEnv.unlimited site' env p := by
   induction p with
-  | source items => intro site site' env; simp only [runL, guard_unlimited]
+  | scan rows => intro site site' env; simp only [runL, guard_unlimited]
+  | fail e => intro site site' env; simp only [runL, guard_unlimited]
   | arg => intro site site' env; simp only [runL, guard_unlimited]
+  | indexSeek key value fb ih =>
+    intro site site' env; simp only [runL, guard_unlimited]; rw [ih (.left site) (.left site')]
+  | procedureCall name args inp ih =>
+    intro site site' env; simp only [runL, guard_unlimited]; rw [ih (.left site) (.left site')]
+  | fixup nulls outer filtered iho ihf =>
+    intro site site' env; simp only [runL, guard_unlimited]
+    rw [iho (.left site) (.left site'), ihf (.right site) (.right site')]
+    simp only [fixupBody]
+    have : ∀ fr os, fixupMerge S LimEnv.unlimited site nulls fr 0 0 os =
+        fixupMerge S LimEnv.unlimited site' nulls fr 0 0 os :=
+      fun fr os => fixupMerge_unlimited_site S site site' nulls fr os 0 0
+    simp only [this]
+    rfl
   | filter pred inp ih =>
     intro site site' env; simp only [runL, guard_unlimited]; rw [ih (.left site) (.left site')]
   | project projs inp ih =>
@@ -141,7 +167,7 @@ theorem runL_unlimited_site {χ ρ ν ε κ α : Type} [DecidableEq κ] (S : Sem
     intro site site' env; simp only [runL, guard_unlimited]; rw [ih (.left site) (.left site')]
   | unwind e alias inp ih =>
     intro site site' env; simp only [runL, guard_unlimited]; rw [ih (.left site) (.left site')]; rfl
-  | expand f inp ih =>
+  | expand kind g inp ih =>
     intro site site' env; simp only [runL, guard_unlimited]; rw [ih (.left site) (.left site')]
   | skip n inp ih =>
     intro site site' env; simp only [runL, guard_unlimited]; rw [ih (.left site) (.left site')]
@@ -164,17 +190,17 @@ theorem runL_unlimited_site {χ ρ ν ε κ α : Type} [DecidableEq κ] (S : Sem
   | cartesian l r ihl ihr =>
     intro site site' env; simp only [runL, guard_unlimited]
     rw [ihl (.left site) (.left site')]
-    have : (fun k lrow => (runL S Q LimEnv.unlimited (.exec k site) env r).map (joinItem S lrow)) =
-        (fun k lrow => (runL S Q LimEnv.unlimited (.exec k site') env r).map (joinItem S lrow)) := by
+    have : (fun k lrow => (dropErrs (Q.dropsErr .cartesianRight) (runL S Q LimEnv.unlimited (.exec k site) env r)).map (joinItem S lrow)) =
+        (fun k lrow => (dropErrs (Q.dropsErr .cartesianRight) (runL S Q LimEnv.unlimited (.exec k site') env r)).map (joinItem S lrow)) := by
       funext k lrow; rw [ihr (.exec k site) (.exec k site')]
     rw [this]
   | apply inp sub ihi ihs =>
     intro site site' env; simp only [runL, guard_unlimited]
     rw [ihi (.left site) (.left site')]
-    have : (fun k r => applyRow S LimEnv.unlimited site k r (runL S Q LimEnv.unlimited (.exec k site) (S.bind env r) sub)) =
-        (fun k r => applyRow S LimEnv.unlimited site' k r (runL S Q LimEnv.unlimited (.exec k site') (S.bind env r) sub)) := by
+    have : (fun k r => applyRow S LimEnv.unlimited site k r (dropErrs (Q.dropsErr .applySub) (runL S Q LimEnv.unlimited (.exec k site) (S.bind env r) sub))) =
+        (fun k r => applyRow S LimEnv.unlimited site' k r (dropErrs (Q.dropsErr .applySub) (runL S Q LimEnv.unlimited (.exec k site') (S.bind env r) sub))) := by
       funext k r; rw [ihs (.exec k site) (.exec k site')]; rfl
-    show (flatMapT _).run 0 _ = (flatMapT _).run 0 _
+    show (dropErrT _ (flatMapT _)).run 0 _ = (dropErrT _ (flatMapT _)).run 0 _
     rw [this]
 
 end Nervus.PlanOps
